@@ -451,8 +451,8 @@ def _perturb1(rng, d, backend, variant):
 
 
 def cases(rng, tier):
-    n_synth = 450 if tier == "quick" else 9000
-    n_repo = 75 if tier == "quick" else 1200
+    n_synth = 450 if tier == "quick" else 6000
+    n_repo = 75 if tier == "quick" else 700
     variants = list(VARIANTS)
     for i in range(n_synth):
         wild = i % 3 == 0
@@ -618,14 +618,23 @@ def cstr(s):
     """code-point list literal (hex string token decoded by Model.Testament.h2 / h6)"""
     if not s:
         return "(@nil N)"
+    if _plain(s):
+        return '(s2l "%s"%%string)' % s.replace('"', '""')
     if all(ord(c) < 256 for c in s):
         return '(h2 "%s")' % "".join("%02x" % ord(c) for c in s)
     return '(h6 "%s")' % "".join("%06x" % ord(c) for c in s)
 
 
+def _plain(s):
+    """printable ASCII and LF only: can be written as a raw Coq string token (cheapest literal)"""
+    return all(32 <= ord(c) < 127 or c == "\n" for c in s)
+
+
 def _cexp(t):
     if isinstance(t, Err):
         return '(OE "%s")' % str(t)
+    if t and all(32 <= c < 127 or c == 10 for c in t):
+        return '(OB (s2l "%s"%%string))' % t.decode("ascii").replace('"', '""')
     return '(OB (h2 "%s"))' % bytes(t).hex() if t else "(OB (@nil N))"
 
 
